@@ -38,6 +38,9 @@ CONSTANTS
     NegNoop,       \* sensitivity: '!' in Match is ignored (WRONG)
     SpliceLeaks,   \* sensitivity: Include does not restore the match state (WRONG)
     NegSticky,     \* sensitivity: a '!' also negates the criteria after it (WRONG)
+    NoneUnset,     \* sensitivity: a first value "none" counts as "not set yet" (WRONG)
+    ValSel,        \* value-class programs: option groups (indices into VNames; {} = not this shape)
+    ShapeSel,      \* value-class programs: shapes 1..6
     GenSel,        \* generated-line programs: which block of generated lines ({} = free programs)
     PreSel         \* generated-line programs: directive put before the line (0 = none)
 
@@ -85,7 +88,14 @@ TgtMenu == <<
 
 -----------------------------------------------------------------------------
 (* directives *)
-Blank == [k |-> "", pl |-> <<>>, cr |-> <<>>, n |-> "", v |-> <<>>, sp |-> 0, f |-> ""]
+Blank == [k |-> "", pl |-> <<>>, cr |-> <<>>, n |-> "", v |-> <<>>, sp |-> 0, f |-> "",
+          ty |-> "", den |-> <<>>]
+(* an option whose VALUE CLASS is the point: text as written, and what it denotes.      *)
+(* ty: "set" first obtained value wins (also when it denotes "none");                     *)
+(*     "app" values accumulate, "none" adds nothing                                       *)
+TV(n, ty, txt, den) == [Blank EXCEPT !.k = "topt", !.n = n, !.ty = ty, !.v = txt, !.den = den]
+NONE == <<"none">>
+Str(x) == <<"s", x>>
 HostD(pl)     == [Blank EXCEPT !.k = "host", !.pl = pl]
 MatchD(cr)    == [Blank EXCEPT !.k = "match", !.cr = cr]
 OptD(n, v, sp) == [Blank EXCEPT !.k = "opt", !.n = n, !.v = v, !.sp = sp]
@@ -203,12 +213,114 @@ GenHost ==
         LET x == i - 1 IN
         HostD(<<P((x \div (2 * K)) % 2 = 1, GenH[x \div (4 * K) + 1]),
                 P(x % 2 = 1, GenH[((x \div 2) % K) + 1])>>)]
-GenBlocks == <<Gen2(GenC), Gen3(GenT), GenHost, Gen2(GenS)>>
-DirMenu == StaticMenu \o GenBlocks[1] \o GenBlocks[2] \o GenBlocks[3] \o GenBlocks[4]
+(* Lines whose value class matters (block 5).  Text exactly as written after the keyword. *)
+cnone == <<"n", "o", "n", "e">>
+L0 == <<"l">>
+TypedMenu == <<
+    \* ---- client: _set_string ("none" -> no value, and it is a first value like any other)
+    TV("ProxyJump", "set", <<"none">>, NONE),
+    TV("ProxyJump", "set", <<"None">>, NONE),
+    TV("ProxyJump", "set", <<"bastion">>, Str("bastion")),
+    TV("ProxyJump", "set", <<"jump2">>, Str("jump2")),
+    TV("ProxyJump", "set", <<"\"\"">>, Str("")),
+    TV("HostKeyAlias", "set", <<"none">>, NONE),
+    TV("HostKeyAlias", "set", <<"NONE">>, NONE),
+    TV("HostKeyAlias", "set", <<"alias1">>, Str("alias1")),
+    TV("HostKeyAlias", "set", <<"alias2">>, Str("alias2")),
+    TV("BindAddress", "set", <<"none">>, NONE),
+    TV("BindAddress", "set", <<"10.0.0.9">>, Str("10.0.0.9")),
+    TV("BindAddress", "set", <<"10.0.0.8">>, Str("10.0.0.8")),
+    TV("IdentityAgent", "set", <<"none">>, NONE),
+    TV("IdentityAgent", "set", <<"/ag/1">>, Str("/ag/1")),
+    TV("IdentityAgent", "set", <<"\"/ag/2\"">>, Str("/ag/2")),
+    TV("Ciphers", "set", <<"aes128-ctr">>, Str("aes128-ctr")),
+    TV("Ciphers", "set", <<"+aes128-cbc">>, Str("+aes128-cbc")),
+    TV("Ciphers", "set", <<"-aes128-ctr">>, Str("-aes128-ctr")),
+    TV("Ciphers", "set", <<"^aes256-ctr">>, Str("^aes256-ctr")),
+    TV("KexAlgorithms", "set", <<"curve25519-sha256">>, Str("curve25519-sha256")),
+    TV("KexAlgorithms", "set", <<"+diffie-hellman-group14-sha256">>, Str("+diffie-hellman-group14-sha256")),
+    \* ---- booleans and friends
+    TV("Compression", "set", <<"yes">>, <<"b", "1">>),
+    TV("Compression", "set", <<"no">>, <<"b", "0">>),
+    TV("Compression", "set", <<"Yes">>, <<"b", "1">>),
+    TV("PasswordAuthentication", "set", <<"yes">>, <<"b", "1">>),
+    TV("PasswordAuthentication", "set", <<"no">>, <<"b", "0">>),
+    TV("PasswordAuthentication", "set", <<"true">>, <<"b", "1">>),
+    TV("PasswordAuthentication", "set", <<"false">>, <<"b", "0">>),
+    TV("PasswordAuthentication", "set", <<"\"No\"">>, <<"b", "0">>),
+    TV("ForwardAgent", "set", <<"yes">>, <<"b", "1">>),
+    TV("ForwardAgent", "set", <<"no">>, <<"b", "0">>),
+    TV("ForwardAgent", "set", <<"/ag/sock">>, Str("/ag/sock")),
+    TV("AddressFamily", "set", <<"any">>, <<"e", "any">>),
+    TV("AddressFamily", "set", <<"inet">>, <<"e", "inet">>),
+    TV("AddressFamily", "set", <<"INET6">>, <<"e", "inet6">>),
+    TV("RequestTTY", "set", <<"yes">>, <<"b", "1">>),
+    TV("RequestTTY", "set", <<"no">>, <<"b", "0">>),
+    TV("RequestTTY", "set", <<"force">>, Str("force")),
+    TV("RequestTTY", "set", <<"auto">>, Str("auto")),
+    TV("CanonicalizeHostname", "set", <<"no">>, <<"b", "0">>),
+    TV("CanonicalizeHostname", "set", <<"yes">>, <<"b", "1">>),
+    TV("CanonicalizeHostname", "set", <<"always">>, Str("always")),
+    \* ---- numbers (a value equal to the default is a value)
+    TV("ConnectTimeout", "set", <<"5">>, <<"i", "5">>),
+    TV("ConnectTimeout", "set", <<"10">>, <<"i", "10">>),
+    TV("ServerAliveInterval", "set", <<"0">>, <<"i", "0">>),
+    TV("ServerAliveInterval", "set", <<"15">>, <<"i", "15">>),
+    TV("ServerAliveInterval", "set", <<"=30">>, <<"i", "30">>),
+    TV("ServerAliveCountMax", "set", <<"3">>, <<"i", "3">>),
+    TV("ServerAliveCountMax", "set", <<"7">>, <<"i", "7">>),
+    TV("RekeyLimit", "set", <<"1G 1h">>, <<"r", "1g", "1h">>),
+    TV("RekeyLimit", "set", <<"2G">>, <<"r", "2g", "()">>),
+    TV("RekeyLimit", "set", <<"default none">>, <<"r", "()", "None">>),
+    TV("RekeyLimit", "set", <<"default">>, <<"r", "()", "()">>),
+    \* ---- lists: set once / accumulating
+    TV("SetEnv", "set", <<"A=1">>, <<"l", "A=1">>),
+    TV("SetEnv", "set", <<"B=2 C=3">>, <<"l", "B=2", "C=3">>),
+    TV("GlobalKnownHostsFile", "set", <<"/n/8">>, <<"l", "/n/8">>),
+    TV("GlobalKnownHostsFile", "set", <<"/n/9 /n/7">>, <<"l", "/n/9", "/n/7">>),
+    TV("GlobalKnownHostsFile", "set", <<"none">>, L0),
+    TV("CertificateFile", "app", <<"/c/1">>, Str("/c/1")),
+    TV("CertificateFile", "app", <<"/c/2">>, Str("/c/2")),
+    TV("CertificateFile", "app", <<"none">>, NONE),
+    \* ---- the options with a field of their own: default-valued / "none" occurrences
+    OptD("Port", <<<<"2", "2">>>>, 1),
+    OptD("IdentityFile", <<cnone>>, 1),
+    OptD("IdentityFile", <<<<"N", "o", "n", "e">>>>, 2),
+    OptD("UserKnownHostsFile", <<cnone>>, 1),
+    \* ---- server
+    TV("PermitTTY", "set", <<"yes">>, <<"b", "1">>),
+    TV("PermitTTY", "set", <<"no">>, <<"b", "0">>),
+    TV("PermitTTY", "set", <<"True">>, <<"b", "1">>),
+    TV("LoginGraceTime", "set", <<"30">>, <<"i", "30">>),
+    TV("LoginGraceTime", "set", <<"120">>, <<"i", "120">>),
+    TV("MACs", "set", <<"hmac-sha2-256">>, Str("hmac-sha2-256")),
+    TV("MACs", "set", <<"+hmac-sha1">>, Str("+hmac-sha1")),
+    TV("MACs", "set", <<"none">>, NONE),
+    TV("HostKey", "app", <<"/hk/1">>, Str("/hk/1")),
+    TV("HostKey", "app", <<"/hk/2">>, Str("/hk/2")),
+    TV("HostKey", "app", <<"none">>, NONE),
+    OptD("AuthorizedKeysFile", <<cnone>>, 1)
+>>
+IsNoneText(v) == Len(v) = 4 /\ v[1] \in {"n", "N"} /\ v[2] \in {"o", "O"} /\ v[3] \in {"n", "N"}
+                            /\ v[4] \in {"e", "E"}
+EMPTYL == <<<<"@EMPTY@">>>>        \* a list option set to "none": the empty list (not "unset")
+
+GenBlocks == <<Gen2(GenC), Gen3(GenT), GenHost, Gen2(GenS), TypedMenu>>
+DirMenu == StaticMenu \o GenBlocks[1] \o GenBlocks[2] \o GenBlocks[3] \o GenBlocks[4] \o GenBlocks[5]
 NDir == Len(DirMenu)
 RECURSIVE BlockStart(_)
 BlockStart(b) == IF b = 1 THEN NStatic ELSE BlockStart(b - 1) + Len(GenBlocks[b - 1])
 GenIdx(b) == (BlockStart(b) + 1)..(BlockStart(b) + Len(GenBlocks[b]))
+VNames == <<"ProxyJump", "HostKeyAlias", "BindAddress", "IdentityAgent", "Ciphers", "KexAlgorithms",
+            "Compression", "PasswordAuthentication", "ForwardAgent", "AddressFamily", "RequestTTY",
+            "CanonicalizeHostname", "ConnectTimeout", "ServerAliveInterval", "ServerAliveCountMax",
+            "RekeyLimit", "SetEnv", "GlobalKnownHostsFile", "CertificateFile",
+            "Port", "User", "Hostname", "IdentityFile", "SendEnv", "UserKnownHostsFile",      \* 20..25
+            "PermitTTY", "LoginGraceTime", "MACs", "HostKey", "AuthorizedKeysFile",          \* 26..30 server
+            "BindAddress", "Ciphers", "PasswordAuthentication">>                             \* 31..33 server
+(* all lines (static or typed) giving option VNames[g] a value *)
+GroupOf(g) == {i \in (1..NStatic) \cup GenIdx(5) :
+                 DirMenu[i].k \in {"opt", "topt"} /\ DirMenu[i].n = VNames[g]}
 
 (* server side: user names presented by the (unauthenticated) client *)
 SrvUsers == <<
@@ -237,6 +349,7 @@ DirText(d) ==
                     THEN <<" ">> \o Join([j \in 1..Len(d.cr[i].pl) |-> PatChars(d.cr[i].pl[j])], <<",">>)
                     ELSE <<>>)])
       [] d.k = "inc"   -> <<"Include ", IF d.f = "A" THEN "@INCA@" ELSE "@INCG@">>
+      [] d.k = "topt"  -> <<d.n, " ">> \o d.v
       [] d.k = "opt"   ->
            LET rest == Flat([i \in 1..(Len(d.v) - 1) |-> <<" ">> \o d.v[i + 1]]) IN
            CASE d.sp = 1 -> <<d.n, " ">> \o d.v[1] \o rest
@@ -272,7 +385,8 @@ HasErr(s) == \E i \in 1..Len(s) : s[i] = ERR
 -----------------------------------------------------------------------------
 (* interpreter *)
 St0(user) == [m |-> TRUE, port |-> <<>>, user |-> user, hostname |-> <<>>, tag |-> <<>>,
-              idf |-> <<>>, env |-> <<>>, ukh |-> <<>>, akf |-> <<>>, fin |-> FALSE]
+              idf |-> <<>>, env |-> <<>>, ukh |-> <<>>, akf |-> <<>>, fin |-> FALSE,
+              t |-> <<>>]          \* t: <<name, denotation>> of the typed options, in order of first use
 
 HostNow(st, cx) == IF st.hostname # <<>> THEN st.hostname ELSE cx.host
 UserNow(st, cx) == IF st.user # <<>> THEN st.user ELSE LU
@@ -314,11 +428,27 @@ Assign(st, d, cx) ==
            THEN [st EXCEPT !.hostname = ExpandVal(d.v[1], ("%" :> <<"%">>) @@ ("h" :> cx.host))]
            ELSE st
       [] d.n = "IdentityFile" ->
-           IF ListFirstWins /\ st.idf # <<>> THEN st ELSE [st EXCEPT !.idf = Append(@, d.v[1])]
+           IF IsNoneText(d.v[1]) THEN st            \* "none" adds no file
+           ELSE IF ListFirstWins /\ st.idf # <<>> THEN st ELSE [st EXCEPT !.idf = Append(@, d.v[1])]
       [] d.n = "SendEnv"  ->
            IF ListFirstWins /\ st.env # <<>> THEN st ELSE [st EXCEPT !.env = @ \o d.v]
-      [] d.n = "UserKnownHostsFile" -> IF st.ukh = <<>> THEN [st EXCEPT !.ukh = d.v] ELSE st
-      [] d.n = "AuthorizedKeysFile" -> IF st.akf = <<>> THEN [st EXCEPT !.akf = d.v] ELSE st
+      [] d.n = "UserKnownHostsFile" ->
+           IF st.ukh = <<>> THEN [st EXCEPT !.ukh = IF IsNoneText(d.v[1]) THEN EMPTYL ELSE d.v] ELSE st
+      [] d.n = "AuthorizedKeysFile" ->
+           IF st.akf = <<>> THEN [st EXCEPT !.akf = IF IsNoneText(d.v[1]) THEN EMPTYL ELSE d.v] ELSE st
+
+TAssign(st, d) ==
+    LET at == {i \in 1..Len(st.t) : st.t[i][1] = d.n}
+        k  == IF at = {} THEN 0 ELSE CHOOSE i \in at : TRUE
+    IN  IF d.ty = "app"
+        THEN IF d.den = NONE
+             THEN (IF k = 0 THEN [st EXCEPT !.t = Append(@, <<d.n, L0>>)] ELSE st)
+             ELSE IF k = 0 THEN [st EXCEPT !.t = Append(@, <<d.n, <<"l", d.den[2]>>>>)]
+             ELSE IF ListFirstWins THEN st
+             ELSE [st EXCEPT !.t[k] = <<d.n, Append(st.t[k][2], d.den[2])>>]
+        ELSE IF k = 0 THEN [st EXCEPT !.t = Append(@, <<d.n, d.den>>)]
+        ELSE IF NoneUnset /\ st.t[k][2] = NONE THEN [st EXCEPT !.t[k] = <<d.n, d.den>>]
+        ELSE st
 
 ExpandAll(st, cx) ==
     LET tk == Tokens(st, cx) IN
@@ -341,6 +471,7 @@ RunLines(lines, st, cx, prog) ==
                                            ELSE <<prog.a, prog.b>>
                                   after == RunFiles(files, st, cx, prog)
                               IN  IF SpliceLeaks THEN after ELSE [after EXCEPT !.m = TRUE]
+                    ELSE IF d.k = "topt" THEN TAssign(st, d)
                     ELSE Assign(st, d, cx)
          IN  RunLines(Tail(lines), st2, cx, prog)
 RunFiles(files, st, cx, prog) ==
@@ -349,9 +480,16 @@ RunFiles(files, st, cx, prog) ==
              s2 == IF cx.flags.b THEN ExpandAll(s1, cx) ELSE s1
          IN  RunFiles(Tail(files), s2, cx, prog)
 
+(* prog.x = "list": two configuration files given as a list (main, then b);           *)
+(* prog.x = "chain": an options object built from main is the base of one built from b. *)
+(* Either way the rule is: as if b followed main in one file.                            *)
 Pass(prog, cx, st0) ==
-    LET s == RunLines(prog.main, st0, cx, prog)
-    IN  IF cx.flags.b THEN ExpandAll(s, cx) ELSE s
+    LET s  == RunLines(prog.main, st0, cx, prog)
+        s1 == IF prog.x = "" THEN s
+              ELSE LET mid == IF cx.flags.b \/ (prog.x = "chain" /\ cx.flags.d)
+                              THEN ExpandAll(s, cx) ELSE s
+                   IN  RunLines(prog.b, [mid EXCEPT !.m = TRUE], cx, prog)
+    IN  IF cx.flags.b THEN ExpandAll(s1, cx) ELSE s1
 
 Cx(host, canonical, final, flags) ==
     [host |-> host, canonical |-> canonical, final |-> final, flags |-> flags,
@@ -359,7 +497,7 @@ Cx(host, canonical, final, flags) ==
 
 Out(st, cx, expanded) ==
     LET s == IF expanded THEN st ELSE ExpandAll(st, cx) IN
-    <<HostNow(s, cx), PortNow(s), UserNow(s, cx), s.idf, s.env, s.ukh, s.tag>>
+    <<HostNow(s, cx), PortNow(s), UserNow(s, cx), s.idf, s.env, s.ukh, s.tag, s.t>>
 
 (* the first pass alone (what SSHClientConfig.load returns) *)
 Eval1(prog, tgt, flags) ==
@@ -374,18 +512,19 @@ Eval(prog, tgt, flags) ==
         canon == tgt.mode = "canon"
         cx2 == Cx(IF canon THEN Canon(tgt.host) ELSE tgt.host, canon, s1.fin, flags)
     IN  IF ~(canon \/ s1.fin) THEN Out(s1, cx1, flags.b)
-        ELSE Out(Pass(prog, cx2,
+        ELSE Out(Pass(IF flags.a /\ prog.x = "chain" THEN [prog EXCEPT !.main = <<>>] ELSE prog, cx2,
                       IF flags.a THEN St0(tgt.user)
                       \* ssh fixes the host name before re-reading the files
                       ELSE [s1 EXCEPT !.m = TRUE,
                                       !.hostname = IF canon THEN cx2.host ELSE HostNow(s1, cx1)]),
                  cx2, flags.b)
 
-Rule == [a |-> FALSE, b |-> FALSE, c |-> FALSE]
-AltFlags == <<[a |-> TRUE,  b |-> FALSE, c |-> FALSE], [a |-> FALSE, b |-> TRUE,  c |-> FALSE],
-              [a |-> TRUE,  b |-> TRUE,  c |-> FALSE], [a |-> FALSE, b |-> FALSE, c |-> TRUE],
-              [a |-> TRUE,  b |-> FALSE, c |-> TRUE],  [a |-> FALSE, b |-> TRUE,  c |-> TRUE],
-              [a |-> TRUE,  b |-> TRUE,  c |-> TRUE]>>
+Rule == [a |-> FALSE, b |-> FALSE, c |-> FALSE, d |-> FALSE]
+(* d: an options object derived from another one expands the inherited values again *)
+AltFlags == LET all == {f \in [a : BOOLEAN, b : BOOLEAN, c : BOOLEAN, d : BOOLEAN] : f # Rule}
+                bits(f) == (IF f.a THEN 1 ELSE 0) + (IF f.b THEN 2 ELSE 0) + (IF f.c THEN 4 ELSE 0)
+                           + (IF f.d THEN 8 ELSE 0)
+            IN  [i \in 1..15 |-> CHOOSE f \in all : bits(f) = i]
 
 -----------------------------------------------------------------------------
 (* server side *)
@@ -418,16 +557,31 @@ GenOpt == IF Mode = "cli" THEN 25 ELSE 46
 GenLines == UNION {GenIdx(b) : b \in GenSel}
 GenMains == (IF 0 \in PreSel THEN {<<g, GenOpt>> : g \in GenLines} ELSE {}) \cup
             {<<pre, g, GenOpt>> : pre \in PreSel \ {0}, g \in GenLines}
-GenProgs == [main : GenMains, a : {<<>>}, b : {<<>>}]
+GenProgs == [main : GenMains, a : {<<>>}, b : {<<>>}, x : {""}]
 FreeProgs == [main : UNION {[1..n -> MainSel] : n \in 1..MaxMain},
           a    : UNION {[1..n -> IncSel]  : n \in 0..MaxInc},
-          b    : UNION {[1..n -> IncSel]  : n \in 0..(IF MaxInc > 0 THEN 1 ELSE 0)}]
-Progs == IF GenSel = {} THEN FreeProgs ELSE GenProgs
+          b    : UNION {[1..n -> IncSel]  : n \in 0..(IF MaxInc > 0 THEN 1 ELSE 0)},
+          x    : {""}]
+(* value-class programs: the same option twice (every ordered pair of its value classes, *)
+(* also the same class twice), both occurrences applicable:                              *)
+(*   1 two blocks that both match          2 in the file, then in an Included file       *)
+(*   3 in an Included file, then after it   4 two configuration files given as a list     *)
+(*   5 an options object chained on another 6 chained, and a "Match final" block          *)
+Blk1 == IF Mode = "cli" THEN 3 ELSE 7         \* Host *   /  Match all
+VProg(s, i, j) ==
+    CASE s = 1 -> [main |-> <<Blk1, i, 7, j>>, a |-> <<>>,  b |-> <<>>,  x |-> ""]
+      [] s = 2 -> [main |-> <<i, 43>>,         a |-> <<j>>, b |-> <<>>,  x |-> ""]
+      [] s = 3 -> [main |-> <<43, j>>,         a |-> <<i>>, b |-> <<>>,  x |-> ""]
+      [] s = 4 -> [main |-> <<i>>,             a |-> <<>>,  b |-> <<j>>, x |-> "list"]
+      [] s = 5 -> [main |-> <<i>>,             a |-> <<>>,  b |-> <<j>>, x |-> "chain"]
+      [] s = 6 -> [main |-> <<i>>,             a |-> <<>>,  b |-> <<j, 19, i>>, x |-> "chain"]
+ValProgs == UNION {{VProg(s, i, j) : s \in ShapeSel, i \in GroupOf(g), j \in GroupOf(g)} : g \in ValSel}
+Progs == IF ValSel # {} THEN ValProgs ELSE IF GenSel = {} THEN FreeProgs ELSE GenProgs
 UsesInc(p, f) == \E i \in 1..Len(p.main) : DirMenu[p.main[i]].k = "inc" /\ DirMenu[p.main[i]].f = f
 (* include files only vary when they are read *)
 WellFormed(p) ==
     /\ (p.a # <<>> => (UsesInc(p, "A") \/ UsesInc(p, "G")))
-    /\ (p.b # <<>> => UsesInc(p, "G"))
+    /\ (p.b # <<>> => (UsesInc(p, "G") \/ p.x # ""))
 RECURSIVE SeqHash(_)
 SeqHash(s) == IF s = <<>> THEN 3 ELSE (SeqHash(Tail(s)) * 53 + Head(s)) % 100003
 Keep(p) == (SeqHash(p.main) + 7 * SeqHash(p.a) + 11 * SeqHash(p.b)) % SampleMod = SampleRem
@@ -470,7 +624,7 @@ Holds(p, i, cx) ==
              st == StateAt(p, j - 1, cx)
          IN  IF d.k = "host" THEN NameListMatch(d.pl, cx.host)
              ELSE \A k \in 1..Len(d.cr) : CritVal(d.cr[k], st, cx) # d.cr[k].neg
-Assigning(p, n, cx) == {i \in 1..Len(p.main) : DirMenu[p.main[i]].k = "opt" /\ DirMenu[p.main[i]].n = n
+Assigning(p, n, cx) == {i \in 1..Len(p.main) : DirMenu[p.main[i]].k \in {"opt", "topt"} /\ DirMenu[p.main[i]].n = n
                                                 /\ Holds(p, i, cx)}
 MinOf(S) == CHOOSE x \in S : \A y \in S : x <= y
 RECURSIVE SortedSeq(_)
@@ -487,16 +641,29 @@ FirstWins ==
             /\ st.user = val("User", st.user, TgtMenu[kase.t].user)
             /\ st.tag  = val("Tag", st.tag, <<>>)
             /\ (Assigning(kase.p, "Hostname", cx) = {}) = (st.hostname = <<>>)
+            \* typed options: the value is the one denoted by the first applicable line,
+            \* whatever it denotes ("none", the default, an empty string ...)
+            /\ \A k \in 1..Len(st.t) :
+                  LET S == Assigning(kase.p, st.t[k][1], cx)
+                      d == DirMenu[kase.p.main[MinOf(S)]]
+                  IN  S # {} /\ (d.ty = "set" => st.t[k][2] = d.den)
+            /\ \A i \in 1..Len(kase.p.main) :
+                  LET d == DirMenu[kase.p.main[i]] IN
+                  (d.k = "topt" /\ Holds(kase.p, i, cx)) => \E k \in 1..Len(st.t) : st.t[k][1] = d.n
 
 Accumulates ==
     (Mode = "cli" /\ NoInc(kase.p)) =>
         LET cx == Cx(TgtMenu[kase.t].host, FALSE, FALSE, Rule)
             st == RunLines(kase.p.main, St0(TgtMenu[kase.t].user), cx, kase.p)
-            lines(n) == SortedSeq(Assigning(kase.p, n, cx))
-        IN  /\ st.idf = [i \in 1..Len(lines("IdentityFile")) |->
-                            DirMenu[kase.p.main[lines("IdentityFile")[i]]].v[1]]
-            /\ st.env = Flat([i \in 1..Len(lines("SendEnv")) |->
-                            DirMenu[kase.p.main[lines("SendEnv")[i]]].v])
+            D(i) == DirMenu[kase.p.main[i]]
+            lines(n) == SortedSeq({i \in Assigning(kase.p, n, cx) :
+                                     IF D(i).k = "topt" THEN D(i).den # NONE
+                                     ELSE ~IsNoneText(D(i).v[1])})
+        IN  /\ st.idf = [i \in 1..Len(lines("IdentityFile")) |-> D(lines("IdentityFile")[i]).v[1]]
+            /\ st.env = Flat([i \in 1..Len(lines("SendEnv")) |-> D(lines("SendEnv")[i]).v])
+            /\ \A k \in 1..Len(st.t) :
+                  (\E i \in 1..Len(kase.p.main) : D(i).k = "topt" /\ D(i).n = st.t[k][1] /\ D(i).ty = "app")
+                  => st.t[k][2] = <<"l">> \o [i \in 1..Len(lines(st.t[k][1])) |-> D(lines(st.t[k][1])[i]).den[2]]
 
 (* Include A == A's lines in place, when A has no Host/Match line of its own *)
 BlockFree(f) == \A i \in 1..Len(f) : DirMenu[f[i]].k = "opt"
@@ -547,12 +714,14 @@ NeverAltDiffers == ~(Mode = "cli" /\ \E i \in 1..Len(AltFlags) :
 B2N(x) == IF x THEN 1 ELSE 0
 HasFinalCrit(p) == \E part \in {p.main, p.a, p.b} : \E i \in 1..Len(part) : HasFinal(DirMenu[part[i]].cr)
 SensA(p, t) == t.mode = "canon" \/ HasFinalCrit(p)
-SensB(p, t) == UsesInc(p, "A") \/ UsesInc(p, "G") \/ SensA(p, t)
+SensB(p, t) == UsesInc(p, "A") \/ UsesInc(p, "G") \/ SensA(p, t) \/ p.x = "list"
 SensC(p)    == UsesInc(p, "G")
+SensD(p)    == p.x = "chain"
 Alts(p, t, first) ==
     SelectSeq(AltFlags, LAMBDA f : /\ (f.a => (~first /\ SensA(p, t)))
-                                   /\ (f.b => SensB(p, t)) /\ (f.c => SensC(p)))
-FlagBits(f) == B2N(f.a) + 2 * B2N(f.b) + 4 * B2N(f.c)
+                                   /\ (f.b => SensB(p, t)) /\ (f.c => SensC(p))
+                                   /\ (f.d => SensD(p)))
+FlagBits(f) == B2N(f.a) + 2 * B2N(f.b) + 4 * B2N(f.c) + 8 * B2N(f.d)
 EmitCli ==
     LET t == TgtMenu[kase.t]
         r == Eval(kase.p, t, Rule)
@@ -562,16 +731,20 @@ EmitCli ==
                           LAMBDA x : x[2] # r)
         alts1 == SelectSeq([i \in 1..Len(af1) |-> <<FlagBits(af1[i]), Eval1(kase.p, t, af1[i])>>],
                            LAMBDA x : x[2] # Eval1(kase.p, t, Rule))
-    IN  PrintT(<<"cli", kase.p.main, kase.p.a, kase.p.b, kase.t, Eval1(kase.p, t, Rule), r, alts1, alts>>)
+    IN  PrintT(<<"cli", kase.p.main, kase.p.a, kase.p.b, kase.t, Eval1(kase.p, t, Rule), r, alts1, alts,
+                 kase.p.x>>)
 EmitSrv ==
     LET u == SrvUsers[kase.t]
         r == SrvEval(kase.p, u, Rule)
-        af == SelectSeq(AltFlags, LAMBDA f : ~f.a /\ (f.b => UsesInc(kase.p, "A") \/ UsesInc(kase.p, "G"))
+        af == SelectSeq(AltFlags, LAMBDA f : ~f.a /\ ~f.d
+                                              /\ (f.b => UsesInc(kase.p, "A") \/ UsesInc(kase.p, "G")
+                                                           \/ kase.p.x = "list")
                                               /\ (f.c => UsesInc(kase.p, "G")))
         alts == SelectSeq([i \in 1..Len(af) |-> <<FlagBits(af[i]), SrvEval(kase.p, u, af[i])>>],
                           LAMBDA x : x[2] # r)
     IN  PrintT(<<"srv", kase.p.main, kase.p.a, kase.p.b, kase.t, B2N(Unsafe(u)), r, alts,
-                 RawAkf(kase.p, u)>>)
+                 RawAkf(kase.p, u), kase.p.x,
+                 Pass(kase.p, SrvCx(u, Rule), St0(<<>>)).t>>)
 EmitCase == Emit => IF Mode = "cli" THEN EmitCli ELSE EmitSrv
 
 MenuDump == <<"menu",
